@@ -70,6 +70,13 @@ def run(res, scratch, *, tier, seed, replay):
     tp = scratch.fresh("htrace") + ".ndjson"
     rc, out, dt = common.run([binary, "-trace", tp, "-scenarios", sp, "-client", client], timeout=3000)
     if rc != 0:
+        crash = common.library_crash(out)
+        if crash:
+            # the process died inside library code: nothing was answered any more on any connection
+            res.report({"property": "C10", "why": "a panic / fatal error in a library goroutine killed the process", "detail": crash,
+                        "script": {"scenarios": [s["id"] for s in scens]}, "trace": out[-3000:].splitlines()[-40:],
+                        "replay_key": {"crash": crash}})
+            return
         raise Infra("httpe2e driver failed rc=%d: %s" % (rc, out[-2000:]))
     n = json.loads(out.strip().splitlines()[-1])["connections"]
     res.coverage["evaluations"] += n
